@@ -390,3 +390,15 @@ def run(ctx):
                     ok = A.must_pass(h, [c.block for c in cs])[0] and all(A.consumed(h, c.block)[0] for c in cs)
         ctx.inst("C16.R7", "refuses-disabled/" + ixn, ok, "%s refuses a disabled account before any mutation" % ixn, "", h.loc(h.raw["span"]))
     ctx.floor("C16.R7", 12)
+
+
+_run_pre_leaves = run
+
+
+def run(ctx):
+    from .kernels import check_leaves
+    try:
+        _run_pre_leaves(ctx)
+    finally:
+        # leaf helpers this property's rules treat by name, pinned as complete path tables
+        check_leaves(ctx, "C16.K", ['account.get_flag', 'balance.is_empty', 'balance.get_side', 'balance.is_active', 'balance.set_active'])
